@@ -125,7 +125,15 @@ def cred_url(host, login, password, owner, slug):
 
 
 def secrets_of(pw):
-    return [('raw password', pw), ('quoted password', _py_quote_plus(pw))]
+    # every percent-encoded spelling the password could travel in (it is recoverable from each of them):
+    # a URL built with another quoting function than the one the mask is computed with is a leak too
+    import urllib.parse as up
+    forms = [('raw password', pw), ('quoted password', _py_quote_plus(pw))]
+    for name, q in (('password quoted with quote(safe="")', up.quote(pw, safe='')),
+                    ('password quoted with quote()', up.quote(pw))):
+        if q not in [f for _, f in forms]:
+            forms.append((name, q))
+    return forms
 
 
 def find(text, secrets):
